@@ -239,6 +239,8 @@ func streamC02(env *runEnv) {
 			{"iat-future", func(c *paaClaims) { c.Iat = i64(now + 3600) }},
 			{"iat-past", func(c *paaClaims) { c.Iat = i64(now - 10) }},
 			{"host-other", func(c *paaClaims) { c.Host = "evil:1" }},
+			{"at-empty", func(c *paaClaims) { c.AT = "" }},
+			{"at-other", func(c *paaClaims) { c.AT = c.AT + "x" }},
 		}
 		for _, v := range vs {
 			at, spec := newAT(k)
@@ -246,6 +248,9 @@ func streamC02(env *runEnv) {
 			v.mk(&c)
 			tok := signWith(jose.HS256, signingKey, c)
 			env.count("c02.family." + v.name)
+			if strings.HasPrefix(v.name, "at-") {
+				spec = "unknown" // the provider never issued that access token
+			}
 			emitPaa(env, idp, tok, spec, func(int64) string { return c.term("HS256", "S") })
 		}
 		// other key, other algorithms
